@@ -103,6 +103,9 @@ def build_unit(name, workdir, strip_loops=None):
         try:
             harn += auto_harness(L, funs, p)
         except PipelineError as e:
+            if p.get('optional'):
+                missing[p['name']] = 'optional'      # a proof about a function that exists only after an edit of /repo: skipped
+                continue
             # the function a proof is about is gone (an edit of /repo removed or renamed it, e.g. a lambda): that proof ends in a tool
             # error, the other proofs of the unit still run
             missing[p['name']] = str(e)
